@@ -519,21 +519,38 @@ def canonical_blocks(tree):
     walk(tree, None)
 
 
+_TREE_CACHE = {}
+
+
 class Module:
     def __init__(self, rel, source):
         self.rel = rel
         self.source = source
-        try:
-            self.tree = ast.parse(source, filename=rel)
-        except SyntaxError as e:
-            raise AnalysisError('%s does not parse: %s' % (rel, e))
-        canonical_spelling(self.tree)
-        canonical_blocks(self.tree)
-        self.funcs = {}
-        self.classes = {}
-        self.imports = {}       # local name -> dotted origin
-        self._index(self.tree.body, '', None, None)
-        self._positional_calls()
+        # the parsed tree in its normal form, per source text (a process-wide cache of pickled trees: every property - and every variant of the
+        # self-validation - parses the same two dozen files; each user gets objects of its own)
+        import pickle
+        key = (rel, hash(source), len(source))
+        blob = _TREE_CACHE.get(key)
+        if blob is not None:
+            self.tree = pickle.loads(blob)
+            self.funcs, self.classes, self.imports = {}, {}, {}
+            self._index(self.tree.body, '', None, None)
+        else:
+            try:
+                self.tree = ast.parse(source, filename=rel)
+            except SyntaxError as e:
+                raise AnalysisError('%s does not parse: %s' % (rel, e))
+            canonical_spelling(self.tree)
+            canonical_blocks(self.tree)
+            self.funcs = {}
+            self.classes = {}
+            self.imports = {}       # local name -> dotted origin
+            self._index(self.tree.body, '', None, None)
+            self._positional_calls()
+            try:
+                _TREE_CACHE[key] = pickle.dumps(self.tree, protocol=pickle.HIGHEST_PROTOCOL)
+            except Exception:
+                pass
         # parent links
         for n in ast.walk(self.tree):
             for ch in ast.iter_child_nodes(n):
